@@ -257,4 +257,5 @@ MUTANTS = [
  dict(id="C13", name="array_name_completed_to_longer_sibling", edits=[(PC, "           port.name[path_len] == '#')\n            return &port;", "           port.name[path_len] == '#' && false)\n            return &port;")]),
  dict(id="C12", name="hashed_guess_verified_by_prefix", edits=[(PC, "               msg[fixed[i].length()])\n                return false;", "               msg[fixed[i].length()] && false)\n                return false;")]),
  dict(id="C03", name="callbackless_port_called", edits=[(PC, "d.port = &port, (port.cb ? port.cb(m,d) : (void)0), d.obj = obj;", "d.port = &port, port.cb(m,d), d.obj = obj;")]),
+ dict(id="C15", name="merged_event_in_a_buffer_of_the_new_events_size", edits=[(UH, "            const size_t N = rtosc_amessage(NULL, 0, msg, types, args);\n", "            const size_t N = rtosc_message_length(msg, -1);\n")]),
 ]
